@@ -70,7 +70,7 @@ def build_plan(choice: Choice, tier):
         n = 1 + d(5, "files")
         # the paths may be given as any iterable; one-shot forms only when the pool is entered once
         p["files_form"] = ["list", "tuple", "generator", "iterator", "list"][d(5, "files.form")]
-        p["modes"] = ["r", "w", "a", "rb", "r"][d(5, "mode")]
+        p["modes"] = ["r", "w", "a", "rb", "r", "r+", "rb+", "wb", "w+", "ab", "a+b", "br", "wb+"][d(13, "mode")]
         p["n_files"] = n
         p["raise_after"] = d(n + 1, "raise_at") if d(2, "raises") == 1 else None
         p["reenter"] = d(3, "reenter") == 2
@@ -109,9 +109,14 @@ def build_plan(choice: Choice, tier):
 # ----------------------------------------------------------------------------------------
 # single process families
 
+def open_fds():
+    return set(os.listdir("/proc/self/fd"))
+
+
 def run_tmp_single(plan, tmpdir):
     import windpyutils.files as files
     viol = []
+    fds_before = open_fds()
     created = []          # every path ever returned
     model = []            # created and not removed
     ext_deleted = set()
@@ -208,6 +213,10 @@ def run_tmp_single(plan, tmpdir):
         v("exception-swallowed", "the exception raised by the with-body did not propagate")
     model.clear()
     check(pool, "after the with block", inside=False)
+    leaked = len(open_fds() - fds_before)
+    if leaked:
+        v("descriptor-leak", f"{leaked} file descriptors opened by the pool are still open after the with block "
+                             f"({len(created)} files were created)")
     left = [p_ for p_ in created if os.path.exists(p_)]
     for p_ in left:
         try:
@@ -326,6 +335,7 @@ def run_filepool(plan, tmpdir):
     if plan.get("dev_null_at") is not None:
         paths[plan["dev_null_at"]] = "/dev/null"
     handed = []
+    fds_before = open_fds()
     mode = plan["modes"]
     form = plan.get("files_form", "list")
     given = {"list": list(paths), "tuple": tuple(paths), "generator": (x for x in paths), "iterator": iter(list(paths))}[form]
@@ -357,12 +367,13 @@ def run_filepool(plan, tmpdir):
                     handed.append(h)
                     if h.closed:
                         v("closed-inside", pth)
+                    binary = "b" in mode
                     if "r" in mode:
                         data = h.read()
-                        if (data if isinstance(data, str) else data.decode()) != f"content {i}\n":
+                        if pth != "/dev/null" and (data if isinstance(data, str) else data.decode()) != f"content {i}\n":
                             v("content", pth)
                     else:
-                        h.write("x")
+                        h.write(b"x" if binary else "x")
                 if plan["raise_after"] is not None and plan["raise_after"] >= len(paths):
                     raise BodyError("body end")
         except BodyError as e:
@@ -382,6 +393,9 @@ def run_filepool(plan, tmpdir):
             pass
         except KeyError:
             v("usable-after-exit", "pool still holds handles after leaving the context")
+        leaked = len(open_fds() - fds_before)
+        if leaked and not any(x["site"] == "handle-left-open" for x in viol):
+            v("descriptor-leak", f"{leaked} file descriptors are still open after leaving the FilePool context")
     return viol, {"ops": len(handed)}
 
 
